@@ -375,3 +375,11 @@ def instances(tier):
         out.append(pca_instance(3, (), 'trace'))
     out.append(rayleigh_bounded_instance())
     return out
+
+
+_inst_before_lemmas = instances
+
+
+def instances(tier):       # noqa: F811
+    from .common import lemma_instance
+    return _inst_before_lemmas(tier) + [lemma_instance('C12', 'rayleigh', 'lemma:rayleigh-maximality-from-the-eigh-contract')]
